@@ -160,6 +160,20 @@ def check_tree(case, ev):
         for m in errs:
             if not any(rel in m for rel in failing):
                 return Finding("faults/error-for-a-good-file", "ERROR record %r" % m[:300], case)
+        # the single-file API on a file the directory API could not process: it fails as well, or at least
+        # does not produce other content ("the entry points produce identical content")
+        for rel in sorted(bad):
+            fs, exc = guarded(lambda: FileAnonymizer(**_opts(case)))
+            if exc is not None:
+                return core.exc_finding(exc, case, "ctor/")
+            outp = os.path.join(d, "single-bad.out")
+            _, exc = guarded(fs.anonymize_file, os.path.join(src, rel), outp)
+            if exc is None:
+                data = open(outp, "rb").read() if os.path.exists(outp) else b""
+                if data != got.get(rel, b""):
+                    return Finding("entrypoints/single-file-api-processes-a-file-the-directory-api-cannot", "file %r (undecodable): anonymize_files reported it and left %r, anonymize_file returned normally and wrote %r" % (rel, got.get(rel, b"")[:80], data[:80]), case)
+            if os.path.exists(outp):
+                os.remove(outp)
         # the command line reports every failing file as well (same tree, fresh output directory)
         if len(failing) >= 2 and not blocked and any(case["features"]) and not case["salt"].startswith("-"):
             pwd_, ip_, words_, asn_ = case["features"]
@@ -277,7 +291,11 @@ def _text(draw, big=False):
         if k == 0:
             lines.append("password " + draw(S.text_value(max_size=8)))
         elif k == 1:
-            lines.append(" ip address %s 255.255.255.0" % G.v4_canon(draw(G.u32)))
+            a = draw(G.u32)
+            blk = draw(st.sampled_from([None, None, (0x0A000000, 8), (0xAC100000, 12), (0xC0A80000, 16), (0x0B000000, 8), (0xAC200000, 12), (0xC0A90000, 16)]))
+            if blk is not None:  # inside / right next to the private blocks
+                a = blk[0] | (a & ((1 << (32 - blk[1])) - 1))
+            lines.append(" ip address %s 255.255.255.0" % G.v4_canon(a))
         elif k == 2:
             lines.append("snmp-server community %s ro" % draw(st.sampled_from(["Secret1", "commZ", "Hx9Gk2Lm"])) if not big else "username u%d secret S3cr3t%d" % (i, i))
         elif k == 3:
